@@ -11,7 +11,7 @@ func (Scenario) Generate(rng *rand.Rand, focus, tier string) kernel.Plan {
 	cfg := map[string]int64{
 		"keyseed":   rng.Int63(),
 		"users":     rng.Int63n(2),
-		"vest_on":   kernel.B2I(focus == "C20" || kernel.Chance(rng, 0.4)),
+		"vest_on":   kernel.B2I(focus == "C20" && kernel.Chance(rng, 0.75) || kernel.Chance(rng, 0.4)),
 		"vest_kind": rng.Int63n(6),
 		"vest_pool": rng.Int63n(64),
 	}
@@ -115,7 +115,7 @@ func (Scenario) Generate(rng *rand.Rand, focus, tier string) kernel.Plan {
 		case "export":
 			add("export")
 		case "stake":
-			add("stake", rng.Int63n(3), rng.Int63n(8), rng.Int63n(5), rng.Int63n(12), rng.Int63n(5), rng.Int63())
+			add("stake", rng.Int63n(3), rng.Int63n(14), rng.Int63n(5), rng.Int63n(12), rng.Int63n(5), rng.Int63())
 		}
 	}
 	add("block", 8, 0)
